@@ -209,6 +209,28 @@ struct BitDequeWorld : IWorld {
         if (n) { if ((cq.front() ? 1 : 0) != out.front() || (q.front() ? 1 : 0) != out.front()) Fail("front() disagrees"); if ((cq.back() ? 1 : 0) != out.back() || (q.back() ? 1 : 0) != out.back()) Fail("back() disagrees"); }
         return out;
     }
+    // A moved-from container is "valid but unspecified": whatever it holds, size() == 0 <=> empty(), size() is the distance
+    // between begin() and end(), and it can be reused. The first condition failing is the known defect of the defaulted move
+    // operations (stale m_pad_begin / m_pad_end): reported as a `finding` line under one stable key, not as a mismatch.
+    static void CheckMovedFrom(Q& x)
+    {
+        const size_t n = x.size();
+        if (x.empty() != (n == 0)) {
+            R().Count("movedfrom_size_inconsistent_with_empty");
+            if (R().counters["movedfrom_size_inconsistent_with_empty"] <= 3) {
+                UniValue o(UniValue::VOBJ);
+                o.pushKV("kind", "finding"); o.pushKV("key", "bitdeque-movedfrom-inconsistent");
+                o.pushKV("test", static_cast<uint64_t>(R().cur_test)); o.pushKV("step", static_cast<uint64_t>(R().cur_step)); o.pushKV("action", R().cur_action);
+                o.pushKV("why", "moved-from bitdeque: empty() = " + std::string(x.empty() ? "true" : "false") + " but size() = " + std::to_string(n));
+                R().Info(o);
+            }
+            return;   // iterating or reusing it would be undefined behaviour
+        }
+        if (static_cast<size_t>(x.end() - x.begin()) != n) Fail("moved-from bitdeque: size() != end() - begin()");
+        x.clear(); x.push_back(true);
+        if (x.size() != 1 || !x.front() || x.empty()) Fail("moved-from bitdeque is not reusable after clear()");
+        x.clear();
+    }
     static Q MkTmp(const UniValue& t)
     {
         const std::string c = t["c"].get_str();
@@ -246,12 +268,12 @@ struct BitDequeWorld : IWorld {
         else if (op == "assign_range") { const auto s = Src(a[1]); v.assign(s.begin(), s.end()); }
         else if (op == "assign_ilist") { CallIL(Src(a[1]), [&](std::initializer_list<bool> il) { v.assign(il); }); }
         else if (op == "copy_assign_from") { const Q t = MkTmp(a[1]); v = t; Q t2 = t; res = ObsOf(Read(t2)); }
-        else if (op == "move_assign_from") { Q t = MkTmp(a[1]); v = std::move(t); }
+        else if (op == "move_assign_from") { Q t = MkTmp(a[1]); v = std::move(t); CheckMovedFrom(t); }
         else if (op == "swap_with") { Q t = MkTmp(a[1]); if (R().steps % 2) v.swap(t); else swap(v, t); res = ObsOf(Read(t)); }
         else if (op == "copy_to") { Q t = MkTmp(a[1]); t = v; res = ObsOf(Read(t)); }
         else if (op == "copy_construct") { Q t(v); res = ObsOf(Read(t)); }
-        else if (op == "move_to") { Q t = MkTmp(a[1]); t = std::move(v); res = ObsOf(Read(t)); now_moved_from = true; }
-        else if (op == "move_construct") { Q t(std::move(v)); res = ObsOf(Read(t)); now_moved_from = true; }
+        else if (op == "move_to") { Q t = MkTmp(a[1]); t = std::move(v); res = ObsOf(Read(t)); now_moved_from = true; CheckMovedFrom(v); }
+        else if (op == "move_construct") { Q t(std::move(v)); res = ObsOf(Read(t)); now_moved_from = true; CheckMovedFrom(v); }
         else Fail("unknown op " + op);
         moved_from = now_moved_from;
         return res;
@@ -261,7 +283,6 @@ struct BitDequeWorld : IWorld {
         if (moved_from) {
             // unspecified content: nothing is compared, but note whether the object is at least self-consistent
             R().Count("movedfrom_states");
-            if (v.empty() != (v.size() == 0)) R().Count("movedfrom_size_inconsistent_with_empty");
             return Obj({{"cfg", cfg}, {"elems", IntArr({})}, {"size", 0}, {"empty", true}, {"movedfrom", true}});
         }
         const std::vector<int> e = Read(v);
